@@ -77,7 +77,7 @@ def call(I, name, args, e):
         if isinstance(a0, SeqV): return mul(seqlen(a0.segs), C(1)) if a0.is_bytes() else I.top('size_of_val of a non-byte slice', e)
         return I.top('size_of_val of %s' % t_, e)
     if 'core::default::Default' in n and n.endswith('::default'):
-        return default_value(I, ty, e)
+        return default_value(I, norm_ty(I.resolve_ty(ty)), e)
 
     # ---------------- Vec / slices / strings
     if n in ('alloc::vec::Vec::<T>::new', 'alloc::vec::Vec::<T>::with_capacity', 'alloc::string::String::new'):
@@ -172,6 +172,7 @@ def call(I, name, args, e):
                         I.st.facts.append((c_, None)); sym.refine(c_, I.st.ranges)
                 return RefV(Cell(SliceV(s, idx.lo, hi)))
             if is_term(idx): return RefV(IndexPlace(I, s, idx))
+            if isinstance(idx, StructV) and idx.path == 'core::ops::RangeFull': return args[0] if isinstance(args[0], RefV) else RefV(Cell(s))
         return I.top('index of %r by %r' % (s, idx), e)
     if n == 'core::slice::<impl [T]>::copy_from_slice':
         I.log.append(('mutate', n, e.get('sp'), _tgt(a0)))
@@ -298,6 +299,38 @@ def call(I, name, args, e):
     if n.endswith('as core::iter::Iterator>::flatten') or n == 'core::iter::Iterator::flatten':
         if isinstance(a0, IterV) and a0.kind == 'option' and not a0.maps: return IterV(a0.seq, a0.by_ref, kind='optflat')
         return I.top('flatten of %r' % (a0,), e)
+    if n in ('alloc::slice::<impl [T]>::concat', 'alloc::slice::<impl [V]>::concat') and isinstance(a0, SeqV) and not a0.stores:
+        # [[u8; N]] / [Vec<u8>] -> Vec<u8>: the elements' bytes one after the other
+        out_ = []
+        for sg in a0.segs:
+            if sg[0] == 'elem' and isinstance(deref(sg[1]), SeqV) and deref(sg[1]).is_bytes():
+                fl = flatten_stores(deref(sg[1]))
+                if fl is None: return I.top('concat over a stored-to element', e)
+                out_.extend(fl)
+            elif sg[0] == 'sym' and re.match(r'^\[u8; (\d+)\]$', a0.elem):
+                n_ = int(re.match(r'^\[u8; (\d+)\]$', a0.elem).group(1)); nm_ = show(sg[1]) + '[i]'
+                out_.append(('rep', ('len', sg[1]), nm_, (('raw', ('a', nm_), C(n_)),)))
+            else: return I.top('concat over segment %s' % sg[0], e)
+        return SeqV('u8', norm_segs(out_))
+    m_ = re.match(r'^core::array::<impl core::convert::TryFrom<&(?:mut )?\[T\]> for (?:&)?\[T; N\]>::try_from$', n)
+    if m_ or (n == '<T as core::convert::TryInto<U>>::try_into' and re.match(r'^core::result::Result<&?\[u8; \d+\]', ty)):
+        mm_ = re.search(r'\[u8; (\d+)\]', ty)
+        src_ = a0
+        if mm_ and isinstance(src_, (SeqV, SliceV)):
+            n_ = int(mm_.group(1))
+            segs_ = list(src_.segs) if isinstance(src_, SeqV) and not src_.stores else (I.slice_segs(src_) if isinstance(src_, SliceV) else None)
+            if segs_ is not None:
+                c_ = cmp('eq', seqlen(segs_), C(n_))
+                arr = SeqV('u8', segs_)
+                pay = RefV(Cell(arr)) if ('Result<&' in ty) else arr
+                if c_ == TRUE: return EnumV('core::result::Result', 'Ok', {'0': pay}, ty=ty)
+                if c_ == FALSE: return EnumV('core::result::Result', 'Err', {}, ty=ty)
+                ev = EnumV('core::result::Result', None, sym=('a', I.fresh_name('try_from')), ty=ty)
+                # on the Ok path the source has exactly N bytes
+                if len(segs_) == 1 and segs_[0][0] == 'raw': arr = SeqV('u8', [('raw', segs_[0][1], C(n_))]); pay = RefV(Cell(arr)) if ('Result<&' in ty) else arr
+                ev.payload_cache[('Ok', '0')] = pay; ev.some_cond = c_; ev.ok_variant = 'Ok'
+                return ev
+        return I.top('array try_from of %r' % (a0,), e)
     if n in ('core::slice::<impl [[T; N]]>::as_flattened', 'core::slice::<impl [[T; N]]>::as_flattened_mut'):
         m_ = re.match(r'^\[u8; (\d+)\]$', a0.elem) if isinstance(a0, SeqV) else None
         if m_ and not a0.stores:
@@ -431,13 +464,57 @@ def call(I, name, args, e):
         return I.branch([(c, lambda: I.enum_payload(a0, 'Ok', '0')), (TRUE, bad)])
 
     # ---------------- Option
+    if n in ('core::option::Option::<T>::as_deref', 'core::option::Option::<T>::as_deref_mut', 'core::option::Option::<T>::as_mut', 'core::option::Option::<&T>::copied', 'core::option::Option::<&T>::cloned'):
+        if isinstance(a0, EnumV): return a0
+        return I.top('Option adaptor on %r' % (a0,), e)
+    if n in ('core::slice::<impl [T]>::get', 'core::slice::<impl [T]>::get_mut'):
+        idx = args[1]
+        if isinstance(a0, SeqV) and isinstance(idx, RangeV) and is_term(idx.lo):
+            total_ = seqlen(a0.segs); hi_ = idx.hi if idx.hi is not None else total_
+            c_ = b_and(cmp('le', idx.lo, hi_), cmp('le', hi_, total_))
+            sl = RefV(Cell(SliceV(a0, idx.lo, hi_)))
+            if c_ == TRUE: return opt_some(sl)
+            if c_ == FALSE: return opt_none()
+            ev = EnumV('core::option::Option', None, sym=('a', I.fresh_name('get')), ty=ty)
+            ev.payload_cache[('Some', '0')] = sl; ev.some_cond = c_
+            return ev
+        if isinstance(a0, SeqV) and is_term(idx):
+            c_ = cmp('lt', idx, seqlen(a0.segs))
+            el = RefV(IndexPlace(I, a0, idx))
+            if c_ == TRUE: return opt_some(el)
+            if c_ == FALSE: return opt_none()
+            ev = EnumV('core::option::Option', None, sym=('a', I.fresh_name('get')), ty=ty)
+            ev.payload_cache[('Some', '0')] = el; ev.some_cond = c_
+            return ev
+        return I.top('slice::get of %r by %r' % (a0, idx), e)
+    if n == 'core::iter::once':
+        return IterV(SeqV(norm_ty(I.resolve_ty((e.get('generics') or ['?'])[0])), [('elem', args[0])]), False)
     if n == 'core::option::Option::<T>::as_ref':
         if isinstance(a0, EnumV): return a0
         return I.top('as_ref', e)
     if n in ('core::option::Option::<T>::is_some', 'core::option::Option::<T>::is_none'):
         c = I.matches({'k': 'Variant', 'variant': 'Some', 'subs': []}, a0)
         return c if n.endswith('is_some') else bnot(c)
+    if n == 'core::option::Option::<T>::unwrap_or_default':
+        _, ga_ = split_generics(norm_ty(I.resolve_ty(e['args'][0].get('ty', ''))) if e.get('args') else '')
+        dv = default_value(I, norm_ty(I.resolve_ty(ty)), e)
+        if isinstance(dv, Top): return dv
+        return opt_match(I, a0, lambda p: p, lambda: dv, e)
+    if n in ('core::cmp::PartialOrd::le', 'core::cmp::PartialOrd::lt', 'core::cmp::PartialOrd::ge', 'core::cmp::PartialOrd::gt', 'core::cmp::PartialEq::eq', 'core::cmp::PartialEq::ne') \
+       or re.match(r'^core::cmp::impls::<impl core::cmp::Partial(Ord|Eq) for \w+>::(le|lt|ge|gt|eq|ne)$', n):
+        b_ = deref(args[1])
+        if is_term(a0) and is_term(b_): return cmp(n.rsplit('::', 1)[1], a0, b_)
+        return I.top('comparison of non-scalars through PartialOrd/PartialEq', e)
+    if n == 'core::str::<impl str>::strip_prefix' and isinstance(a0, SeqV) and is_term(args[1]):
+        # Some(rest) exactly when the string starts with the pattern character; rest = s[1..]
+        c_ = cmp('ne', ('call', 'starts_with', ('a', a0.name or '?'), args[1]), ZERO)
+        ev = EnumV('core::option::Option', None, sym=('a', I.fresh_name('strip_prefix')), ty=ty)
+        ev.payload_cache[('Some', '0')] = RefV(Cell(SliceV(a0, ONE, seqlen(a0.segs)))); ev.some_cond = c_
+        return ev
     if n == 'core::option::Option::<T>::unwrap_or':
+        if isinstance(args[1], RefV):
+            # Option<&T>: payload and default are both references (the payload of a symbolic option is held by value)
+            return opt_match(I, a0, lambda p: p if isinstance(p, RefV) else RefV(Cell(p)), lambda: args[1], e)
         return opt_match(I, a0, lambda p: p, lambda: args[1], e)
     if n == 'core::option::Option::<T>::map_or':
         return opt_match(I, a0, lambda p: I.call_closure(args[2], [p], e), lambda: args[1], e)
